@@ -3,17 +3,17 @@ sys.path.insert(0, '/verif')
 from dst import props
 LEVEL_TEXT = {
  'C01': "Seeded deterministic simulation of the provider around the real conductor; every offer is matched against a credit ledger derived from the generator AST with an independent evaluator; multiset equality demanded in succeeded runs. Exploration: sampled definitions x outcome tables x completion orders x poll/restart/duplicate faults.",
- 'C02': "Status truthfulness clauses evaluated after every handler of every simulated run against harness-side ground truth (in-flight set, ledger facts), with pause/resume/cancel/inadmissible requests injected at seeded handler gaps.",
- 'C03': "Resting-status clause evaluated at every quiescent point (nothing in flight, fresh get_next_tasks() empty) of every simulated run incl. rerun; stuck states are reported with the op list that reaches them.",
- 'C04': "Runs are driven to a terminal status with actions in flight; the suffix injects late completions, duplicates, polls, restarts and every status request; every rejected request in every state is compared byte-wise on the persisted form.",
- 'C05': "Twin execution: a live conductor and one that passes through deserialize(serialize()) at seeded points receive identical calls; results, exceptions and full persisted forms compared after every call; fix-point of the round trip checked.",
+ 'C02': "Status truthfulness clauses evaluated after every handler of every simulated run against harness-side ground truth (in-flight set, ledger facts), with pause/resume/cancel/inadmissible requests injected at seeded handler gaps, actions that are canceled or paused on their own, fail before they ran, or ask for input, and start paths through requested/scheduled/delayed.",
+ 'C03': "Resting-status clause evaluated at every quiescent point (nothing in flight, fresh get_next_tasks() empty) of every simulated run incl. rerun; also when only paused/pending actions remain; stuck states are reported with the op list that reaches them. Fault mix incl. cancel while pausing, requests in the retry window, action-level cancel/pause.",
+ 'C04': "Runs are driven to a terminal status with actions in flight; the suffix injects late completions, duplicates, polls, restarts and every status request; every rejected request in every state is compared byte-wise on the persisted form, and a forbidden request that is neither rejected nor effective is a violation.",
+ 'C05': "Twin execution: a live conductor and one that passes through deserialize(serialize()) at seeded points receive identical calls; results, exceptions and full persisted forms compared after every call; fix-point of the round trip checked; serialising must not change what the live conductor reports.",
  'C06': "Every offered context, rendered action input and the rendered output is compared with a causal write/ancestry model computed independently from the AST; order-decided (racing) variables are excluded exactly as the statement allows.",
- 'C07': "Barrier ledger per (join, route): a join offer must be backed by the required number of distinct arrived inbound tasks, once per satisfaction; unreachable joins must fail the workflow with a naming error entry.",
+ 'C07': "Barrier ledger per (join, route): a join offer must be backed by the required number of distinct arrived inbound tasks, once per satisfaction; unreachable joins must fail the workflow with a naming error entry, neither succeed nor rest in running/resuming (also with pauses between arrivals).",
  'C08': "One scenario (definition + per-task outcome table) is conducted under K seeded completion orders; terminal status, executed multiset, published values and non-racing outputs are compared across the K terminal states.",
  'C09': "Twin runs: P with a pause inserted at a seeded handler gap and resumed at rest, U replaying the same completion order of the same action identities without the two requests; outcomes compared; offer/paused clauses checked during P.",
  'C10': "Cancel injected at seeded handler gaps from running/pausing/paused/resuming with in-flight actions reporting any outcome; no-offer, canceling/canceled, never-succeeded, not-failed-by-cancel and output clauses.",
  'C11': "Fault injection at the expression-evaluation seam: (a) an expression of the definition replaced by one that fails on the delivered data, (b) expr_base.evaluate wrapped to raise the evaluator's exception at the k-th evaluation; containment, recording, failing, no-offer clauses.",
- 'C12': "Per task-execution item ledger (offered / in flight / done) checked at every offer and item completion under reordered item reports, polls, pause/cancel, restarts.",
+ 'C12': "Per task-execution item ledger (offered / in flight / done) checked at every offer and item completion under reordered item reports, polls, pause/cancel, restarts; concurrency literals and expressions incl. values <= 0; items still owed at quiescence are a violation.",
  'C13': "Per-visit attempt ledger: bound, condition (harness evaluator), delay, no-transition-on-retry (no context delta, nothing staged, workflow not failed), last attempt decides.",
  'C15': "Every conductor API call of every simulated run on inspection-accepted generated definitions runs under an exception monitor and a per-call alarm; only the documented rejections may leave a call. The completeness-of-inspection half is input generation: it is only sampled by an admission step (one injected definition fault of the five enumerated classes per sampled definition; inspection must report it) and is claimed at that strength.",
  'C17': "Runs are driven to failed/succeeded by each cause, then rerun requests (default, explicit, reset_items, inadmissible) are issued; offers after the request are matched against rerun entitlements; a twin whose re-executed actions succeed the first time gives the expected final status/output.",
